@@ -12,75 +12,92 @@ pub fn boundary_values() -> Vec<BigInt> {
 }
 
 /// All single mutations of `p` (description, mutated program).
-pub fn mutants(p: &Program) -> Vec<(String, Program)> {
-    let mut out: Vec<(String, Program)> = vec![];
+/// Collects the mutants whose index satisfies `want` (all of them when `want` is None); the others
+/// are only counted, not built, so that big programs can be sampled.
+pub struct Ctx<'a> { pub idx: usize, pub want: Option<&'a dyn Fn(usize) -> bool>, pub out: Vec<(String, Program)> }
+impl Ctx<'_> {
+    fn emit(&mut self, p: &Program, desc: impl FnOnce() -> String, edit: impl FnOnce(&mut Program)) {
+        let i = self.idx;
+        self.idx += 1;
+        if self.want.map(|w| w(i)).unwrap_or(true) {
+            let mut q = p.clone();
+            edit(&mut q);
+            self.out.push((desc(), q));
+        }
+    }
+}
+pub fn mutants(p: &Program) -> Vec<(String, Program)> { let mut ctx = Ctx { idx: 0, want: None, out: vec![] }; build(p, &mut ctx); ctx.out }
+/// Number of mutants of `p` (nothing is built).
+pub fn count_mutants(p: &Program) -> usize { let never = |_: usize| false; let mut ctx = Ctx { idx: 0, want: Some(&never), out: vec![] }; build(p, &mut ctx); ctx.idx }
+/// The mutants with the given indices.
+pub fn mutants_at(p: &Program, want: &dyn Fn(usize) -> bool) -> Vec<(String, Program)> { let mut ctx = Ctx { idx: 0, want: Some(want), out: vec![] }; build(p, &mut ctx); ctx.out }
+fn build(p: &Program, ctx: &mut Ctx) {
     let n = p.statements.len();
     for i in 0..n {
-        let mut q = p.clone(); q.statements.remove(i); out.push((format!("delete statement {i}"), q));
-        let mut q = p.clone(); let s = q.statements[i].clone(); q.statements.insert(i, s); out.push((format!("duplicate statement {i}"), q));
-        if i + 1 < n { let mut q = p.clone(); q.statements.swap(i, i + 1); out.push((format!("swap statements {i},{}", i + 1), q)); }
+        ctx.emit(p, || format!("delete statement {i}"), |q: &mut Program| { q.statements.remove(i); });
+        ctx.emit(p, || format!("duplicate statement {i}"), |q: &mut Program| { let s = q.statements[i].clone(); q.statements.insert(i, s); });
+        if i + 1 < n { ctx.emit(p, || format!("swap statements {i},{}", i + 1), |q: &mut Program| { q.statements.swap(i, i + 1); }); }
         match &p.statements[i] {
             Statement::Invocation(inv) => {
                 for a in 0..inv.args.len() {
-                    let mut q = p.clone(); if let Statement::Invocation(x) = &mut q.statements[i] { x.args.remove(a); } out.push((format!("statement {i}: drop arg {a}"), q));
-                    let mut q = p.clone(); if let Statement::Invocation(x) = &mut q.statements[i] { let v = x.args[a].clone(); x.args.push(v); } out.push((format!("statement {i}: duplicate arg {a}"), q));
-                    let mut q = p.clone(); if let Statement::Invocation(x) = &mut q.statements[i] { x.args[a] = VarId::new(987654); } out.push((format!("statement {i}: arg {a} := unknown var"), q));
-                    if a + 1 < inv.args.len() { let mut q = p.clone(); if let Statement::Invocation(x) = &mut q.statements[i] { x.args.swap(a, a + 1); } out.push((format!("statement {i}: swap args {a},{}", a + 1), q)); }
+                    ctx.emit(p, || format!("statement {i}: drop arg {a}"), |q: &mut Program| { if let Statement::Invocation(x) = &mut q.statements[i] { x.args.remove(a); } });
+                    ctx.emit(p, || format!("statement {i}: duplicate arg {a}"), |q: &mut Program| { if let Statement::Invocation(x) = &mut q.statements[i] { let v = x.args[a].clone(); x.args.push(v); } });
+                    ctx.emit(p, || format!("statement {i}: arg {a} := unknown var"), |q: &mut Program| { if let Statement::Invocation(x) = &mut q.statements[i] { x.args[a] = VarId::new(987654); } });
+                    if a + 1 < inv.args.len() { ctx.emit(p, || format!("statement {i}: swap args {a},{}", a + 1), |q: &mut Program| { if let Statement::Invocation(x) = &mut q.statements[i] { x.args.swap(a, a + 1); } }); }
                 }
                 for b in 0..inv.branches.len() {
                     for (what, t) in [("out of range", BranchTarget::Statement(StatementIdx(n + 7))), ("usize::MAX", BranchTarget::Statement(StatementIdx(usize::MAX))), ("self", BranchTarget::Statement(StatementIdx(i))), ("0", BranchTarget::Statement(StatementIdx(0))), ("fallthrough", BranchTarget::Fallthrough)] {
-                        let mut q = p.clone(); if let Statement::Invocation(x) = &mut q.statements[i] { x.branches[b].target = t; } out.push((format!("statement {i}: branch {b} target := {what}"), q));
+                        ctx.emit(p, || format!("statement {i}: branch {b} target := {what}"), |q: &mut Program| { if let Statement::Invocation(x) = &mut q.statements[i] { x.branches[b].target = t; } });
                     }
-                    let mut q = p.clone(); if let Statement::Invocation(x) = &mut q.statements[i] { x.branches.remove(b); } out.push((format!("statement {i}: drop branch {b}"), q));
+                    ctx.emit(p, || format!("statement {i}: drop branch {b}"), |q: &mut Program| { if let Statement::Invocation(x) = &mut q.statements[i] { x.branches.remove(b); } });
                     for r in 0..inv.branches[b].results.len() {
-                        let mut q = p.clone(); if let Statement::Invocation(x) = &mut q.statements[i] { x.branches[b].results.remove(r); } out.push((format!("statement {i}: branch {b} drop result {r}"), q));
-                        let mut q = p.clone(); if let Statement::Invocation(x) = &mut q.statements[i] { let v = x.branches[b].results[r].clone(); x.branches[b].results.push(v); } out.push((format!("statement {i}: branch {b} duplicate result {r}"), q));
+                        ctx.emit(p, || format!("statement {i}: branch {b} drop result {r}"), |q: &mut Program| { if let Statement::Invocation(x) = &mut q.statements[i] { x.branches[b].results.remove(r); } });
+                        ctx.emit(p, || format!("statement {i}: branch {b} duplicate result {r}"), |q: &mut Program| { if let Statement::Invocation(x) = &mut q.statements[i] { let v = x.branches[b].results[r].clone(); x.branches[b].results.push(v); } });
                     }
                 }
             }
             Statement::Return(vars) => {
-                for a in 0..vars.len() { let mut q = p.clone(); if let Statement::Return(x) = &mut q.statements[i] { x.remove(a); } out.push((format!("return {i}: drop value {a}"), q)); }
-                let mut q = p.clone(); if let Statement::Return(x) = &mut q.statements[i] { x.push(VarId::new(987654)); } out.push((format!("return {i}: extra unknown value"), q));
+                for a in 0..vars.len() { ctx.emit(p, || format!("return {i}: drop value {a}"), |q: &mut Program| { if let Statement::Return(x) = &mut q.statements[i] { x.remove(a); } }); }
+                ctx.emit(p, || format!("return {i}: extra unknown value"), |q: &mut Program| { if let Statement::Return(x) = &mut q.statements[i] { x.push(VarId::new(987654)); } });
             }
         }
     }
     for t in 0..p.type_declarations.len() {
-        let mut q = p.clone(); q.type_declarations.remove(t); out.push((format!("delete type declaration {t}"), q));
-        let mut q = p.clone(); let d = q.type_declarations[t].clone(); q.type_declarations.push(d); out.push((format!("duplicate type declaration {t}"), q));
+        ctx.emit(p, || format!("delete type declaration {t}"), |q: &mut Program| { q.type_declarations.remove(t); });
+        ctx.emit(p, || format!("duplicate type declaration {t}"), |q: &mut Program| { let d = q.type_declarations[t].clone(); q.type_declarations.push(d); });
         for g in 0..p.type_declarations[t].long_id.generic_args.len() {
-            for v in boundary_values() { let mut q = p.clone(); q.type_declarations[t].long_id.generic_args[g] = GenericArg::Value(v.clone()); out.push((format!("type {t}: generic arg {g} := value {v}"), q)); }
-            let mut q = p.clone(); q.type_declarations[t].long_id.generic_args.remove(g); out.push((format!("type {t}: drop generic arg {g}"), q));
-            let mut q = p.clone(); let a = q.type_declarations[t].long_id.generic_args[g].clone(); q.type_declarations[t].long_id.generic_args.push(a); out.push((format!("type {t}: duplicate generic arg {g}"), q));
-            let mut q = p.clone(); q.type_declarations[t].long_id.generic_args[g] = GenericArg::Type(q.type_declarations[t].id.clone()); out.push((format!("type {t}: generic arg {g} := itself"), q));
+            for v in boundary_values() { ctx.emit(p, || format!("type {t}: generic arg {g} := value {v}"), |q: &mut Program| { q.type_declarations[t].long_id.generic_args[g] = GenericArg::Value(v.clone()); }); }
+            ctx.emit(p, || format!("type {t}: drop generic arg {g}"), |q: &mut Program| { q.type_declarations[t].long_id.generic_args.remove(g); });
+            ctx.emit(p, || format!("type {t}: duplicate generic arg {g}"), |q: &mut Program| { let a = q.type_declarations[t].long_id.generic_args[g].clone(); q.type_declarations[t].long_id.generic_args.push(a); });
+            ctx.emit(p, || format!("type {t}: generic arg {g} := itself"), |q: &mut Program| { q.type_declarations[t].long_id.generic_args[g] = GenericArg::Type(q.type_declarations[t].id.clone()); });
         }
     }
     for l in 0..p.libfunc_declarations.len() {
-        let mut q = p.clone(); q.libfunc_declarations.remove(l); out.push((format!("delete libfunc declaration {l}"), q));
+        ctx.emit(p, || format!("delete libfunc declaration {l}"), |q: &mut Program| { q.libfunc_declarations.remove(l); });
         for g in 0..p.libfunc_declarations[l].long_id.generic_args.len() {
-            for v in boundary_values() { let mut q = p.clone(); q.libfunc_declarations[l].long_id.generic_args[g] = GenericArg::Value(v.clone()); out.push((format!("libfunc {l}: generic arg {g} := value {v}"), q)); }
-            let mut q = p.clone(); q.libfunc_declarations[l].long_id.generic_args.remove(g); out.push((format!("libfunc {l}: drop generic arg {g}"), q));
-            for t in 0..p.type_declarations.len().min(6) { let mut q = p.clone(); q.libfunc_declarations[l].long_id.generic_args[g] = GenericArg::Type(p.type_declarations[t].id.clone()); out.push((format!("libfunc {l}: generic arg {g} := type {t}"), q)); }
+            for v in boundary_values() { ctx.emit(p, || format!("libfunc {l}: generic arg {g} := value {v}"), |q: &mut Program| { q.libfunc_declarations[l].long_id.generic_args[g] = GenericArg::Value(v.clone()); }); }
+            ctx.emit(p, || format!("libfunc {l}: drop generic arg {g}"), |q: &mut Program| { q.libfunc_declarations[l].long_id.generic_args.remove(g); });
+            for t in 0..p.type_declarations.len().min(6) { ctx.emit(p, || format!("libfunc {l}: generic arg {g} := type {t}"), |q: &mut Program| { q.libfunc_declarations[l].long_id.generic_args[g] = GenericArg::Type(p.type_declarations[t].id.clone()); }); }
         }
     }
     for f in 0..p.funcs.len() {
-        for (what, e) in [("out of range", n + 3), ("usize::MAX", usize::MAX), ("middle", n / 2), ("last", n.saturating_sub(1))] { let mut q = p.clone(); q.funcs[f].entry_point = StatementIdx(e); out.push((format!("function {f}: entry point := {what}"), q)); }
-        let mut q = p.clone(); q.funcs.remove(f); out.push((format!("delete function {f}"), q));
-        let mut q = p.clone(); let d = q.funcs[f].clone(); q.funcs.push(d); out.push((format!("duplicate function {f}"), q));
+        for (what, e) in [("out of range", n + 3), ("usize::MAX", usize::MAX), ("middle", n / 2), ("last", n.saturating_sub(1))] { ctx.emit(p, || format!("function {f}: entry point := {what}"), |q: &mut Program| { q.funcs[f].entry_point = StatementIdx(e); }); }
+        ctx.emit(p, || format!("delete function {f}"), |q: &mut Program| { q.funcs.remove(f); });
+        ctx.emit(p, || format!("duplicate function {f}"), |q: &mut Program| { let d = q.funcs[f].clone(); q.funcs.push(d); });
         for a in 0..p.funcs[f].params.len() {
-            let mut q = p.clone(); q.funcs[f].params.remove(a); out.push((format!("function {f}: drop param {a}"), q));
-            let mut q = p.clone(); let d = q.funcs[f].params[a].clone(); q.funcs[f].params.push(d); out.push((format!("function {f}: duplicate param {a}"), q));
-            let mut q = p.clone(); q.funcs[f].params[a].ty = ConcreteTypeId::new(424242); out.push((format!("function {f}: param {a} of unknown type"), q));
+            ctx.emit(p, || format!("function {f}: drop param {a}"), |q: &mut Program| { q.funcs[f].params.remove(a); });
+            ctx.emit(p, || format!("function {f}: duplicate param {a}"), |q: &mut Program| { let d = q.funcs[f].params[a].clone(); q.funcs[f].params.push(d); });
+            ctx.emit(p, || format!("function {f}: param {a} of unknown type"), |q: &mut Program| { q.funcs[f].params[a].ty = ConcreteTypeId::new(424242); });
         }
         for r in 0..p.funcs[f].signature.ret_types.len() {
-            let mut q = p.clone(); q.funcs[f].signature.ret_types.remove(r); out.push((format!("function {f}: drop return type {r}"), q));
-            let mut q = p.clone(); let t = q.funcs[f].signature.ret_types[r].clone(); q.funcs[f].signature.ret_types.push(t); out.push((format!("function {f}: declare an extra return type (copy of {r})"), q));
-            if r + 1 < p.funcs[f].signature.ret_types.len() { let mut q = p.clone(); q.funcs[f].signature.ret_types.swap(r, r + 1); out.push((format!("function {f}: swap return types {r},{}", r + 1), q)); }
+            ctx.emit(p, || format!("function {f}: drop return type {r}"), |q: &mut Program| { q.funcs[f].signature.ret_types.remove(r); });
+            ctx.emit(p, || format!("function {f}: declare an extra return type (copy of {r})"), |q: &mut Program| { let t = q.funcs[f].signature.ret_types[r].clone(); q.funcs[f].signature.ret_types.push(t); });
+            if r + 1 < p.funcs[f].signature.ret_types.len() { ctx.emit(p, || format!("function {f}: swap return types {r},{}", r + 1), |q: &mut Program| { q.funcs[f].signature.ret_types.swap(r, r + 1); }); }
         }
         for a in 0..p.funcs[f].params.len() {
-            for t in 0..p.type_declarations.len().min(8) { let mut q = p.clone(); q.funcs[f].params[a].ty = p.type_declarations[t].id.clone(); q.funcs[f].signature.param_types[a] = p.type_declarations[t].id.clone(); out.push((format!("function {f}: param {a} retyped to type {t}"), q)); }
+            for t in 0..p.type_declarations.len().min(8) { ctx.emit(p, || format!("function {f}: param {a} retyped to type {t}"), |q: &mut Program| { q.funcs[f].params[a].ty = p.type_declarations[t].id.clone(); q.funcs[f].signature.param_types[a] = p.type_declarations[t].id.clone(); }); }
         }
     }
-    out
 }
 
 pub fn corpus() -> Vec<(String, String)> {
